@@ -22,7 +22,7 @@ different histories of enable / disable / set_layers calls in turn) in this proc
 all of them and every bit position of key / nonce / ephemeral key must be set in 35-65 % of the samples; (plaintext) \
 encrypted archives (encrypt, compress+encrypt with incompressible data) whose names and contents are unique high-entropy \
 markers, incl. flushes and piece sizes around the cipher buffer and the chunk: no 16-byte window of any content and no \
-name may occur in the bytes after the header; (recipients) recipient sets of 1..5 x candidate key lists (a recipient key at \
+name may occur in the bytes after the header; (recipients) recipient sets of 1..5 and up to 400 x candidate key lists (a recipient key at \
 every position among decoys, decoys only, empty): the archive opens and reads iff the list holds a recipient key, else Err. \
 Non-trivial = fresh: every pair; plaintext: archive with >= 2 chunks; recipients: key list of length >= 2. \
 distinct = hash of the case. 'Never repeated' cannot be established by testing: constant seeding, key/nonce reuse across \
@@ -253,16 +253,24 @@ fn plaintext(c: &PlainCase, st: &mut Stats) -> Result<(), String> {
 
 #[derive(Clone, Debug, Serialize, Deserialize)]
 pub struct RecipCase {
-    pub nrecip: u8,
-    /// candidate list: entries < 100 are recipient indexes (mod nrecip), others decoys
+    pub nrecip: u16,
+    /// candidate list: entries < 100 select a recipient (spread over all nrecip positions), others are decoys
     pub candidates: Vec<u8>,
     pub compress: bool,
     pub seed: u16,
 }
 
 fn recip_case() -> impl Strategy<Value = RecipCase> {
-    (1u8..=5, prop::collection::vec(prop_oneof![1 => 0u8..5, 3 => 100u8..120], 0..6), any::<bool>(), any::<u16>())
+    // recipient sets from one key to several hundred (the header holds one wrapped key per recipient)
+    let n = prop_oneof![16 => 1u16..=5, 2 => 6u16..=83, 1 => Just(84u16), 1 => Just(85u16), 1 => Just(86u16), 2 => 87u16..=400];
+    (n, prop::collection::vec(prop_oneof![1 => 0u8..100, 3 => 100u8..120], 0..6), any::<bool>(), any::<u16>())
         .prop_map(|(nrecip, candidates, compress, seed)| RecipCase { nrecip, candidates, compress, seed })
+}
+
+/// selectors 0 and 99 are the first and the last recipient; the others spread over the positions in between
+fn recipient_index(x: u8, nrecip: u16) -> usize {
+    let n = nrecip.max(1) as usize;
+    (x as usize * (n - 1) + 49) / 99
 }
 
 fn recipients(c: &RecipCase, st: &mut Stats) -> Result<(), String> {
@@ -279,15 +287,15 @@ fn recipients(c: &RecipCase, st: &mut Stats) -> Result<(), String> {
     let cand: Vec<StaticSecret> = c
         .candidates
         .iter()
-        .map(|&x| if x < 100 { keys.recipients[x as usize % keys.recipients.len()].clone() } else { StaticSecret::from(util::seed32(c.seed as u64, "c07-decoy", x as u64)) })
+        .map(|&x| if x < 100 { keys.recipients[recipient_index(x, c.nrecip)].clone() } else { StaticSecret::from(util::seed32(c.seed as u64, "c07-decoy", x as u64)) })
         .collect();
     let has_recipient = c.candidates.iter().any(|&x| x < 100);
     let r = util::catch(|| prog::read_all(&bytes, &cand));
-    st.label(format!("recipients:n={} list={} has_recipient={}", c.nrecip, c.candidates.len().min(6), has_recipient));
+    st.label(format!("recipients:n={} list={} has_recipient={}", match c.nrecip { 0..=5 => c.nrecip.to_string(), 6..=84 => "6..84".into(), _ => "85+".into() }, c.candidates.len().min(6), has_recipient));
     if c.candidates.len() >= 2 {
         st.nontrivial(util::hash64(format!("{c:?}").as_bytes()));
     }
-    st.sample(|| json!({"family": "recipients", "recipients": c.nrecip, "candidates": c.candidates.iter().map(|&x| if x < 100 { format!("recipient{}", x as usize % c.nrecip as usize) } else { "decoy".into() }).collect::<Vec<_>>() }));
+    st.sample(|| json!({"family": "recipients", "recipients": c.nrecip, "candidates": c.candidates.iter().map(|&x| if x < 100 { format!("recipient{}", recipient_index(x, c.nrecip)) } else { "decoy".into() }).collect::<Vec<_>>() }));
     match r {
         Err(p) => Err(format!("opening with candidate list {:?} panics: {}", c.candidates, p.short())),
         Ok(Ok(files)) => {
